@@ -2,34 +2,233 @@
 C14 — generated tie.  `Otel.Gen.C14` is regenerated from /repo's current source by tools/go2lean on every run of
 bin/check (checks/gentie.json lists the sites); the theorems below are re-checked against the regenerated text.
 They state that the decision tables the Go clients implement today are the ones the hand-written model
-(`Otel.C14.retryStatus`, `Otel.C14.retryableGRPC`) and the specification (`httpRetryStatuses`, `grpcAlwaysRetry`) use.
+(`Otel.C14.retryStatus`, `Otel.C14.retryableGRPC`) and the specification (`httpRetryStatuses`, `grpcAlwaysRetry`) use,
+that the three HTTP clients (and the three gRPC clients) implement the same table, and that the six copies of
+`retry.DefaultConfig` are the same configuration and satisfy the side conditions of the C14 theorems.
 -/
 import Otel.Gen.C14
 import Otel.C14.Spec
 
 namespace Otel.C14.GenTie
-open Otel.C14
+open Otel.C14 Otel.C14.Spec
+
+/-! ### HTTP status switch -/
 
 /-- characterisation of the generated HTTP table: retried ⇔ 429, 502, 503 or 504 -/
 theorem gen_trace_http_retryable_iff (s : Int) :
     Otel.Gen.C14.traceHttpStatus s = "retryable" ↔ (s = 429 ∨ s = 502 ∨ s = 503 ∨ s = 504) := by
   unfold Otel.Gen.C14.traceHttpStatus
-  split <;> simp_all <;> omega
+  (repeat' split) <;> (try simp_all) <;> omega
+
+/-- the only other outcome of the switch is the permanent error -/
+theorem gen_trace_http_total (s : Int) :
+    Otel.Gen.C14.traceHttpStatus s = "retryable" ∨ Otel.Gen.C14.traceHttpStatus s = "permanent" := by
+  unfold Otel.Gen.C14.traceHttpStatus
+  (repeat' split) <;> simp
+
+theorem gen_metric_http_retryable_iff (s : Int) :
+    Otel.Gen.C14.metricHttpStatus s = "retryable" ↔ (s = 429 ∨ s = 502 ∨ s = 503 ∨ s = 504) := by
+  unfold Otel.Gen.C14.metricHttpStatus
+  (repeat' split) <;> (try simp_all) <;> omega
+
+theorem gen_metric_http_total (s : Int) :
+    Otel.Gen.C14.metricHttpStatus s = "retryable" ∨ Otel.Gen.C14.metricHttpStatus s = "permanent" := by
+  unfold Otel.Gen.C14.metricHttpStatus
+  (repeat' split) <;> simp
+
+theorem gen_log_http_retryable_iff (s : Int) :
+    Otel.Gen.C14.logHttpStatus s = "retryable" ↔ (s = 429 ∨ s = 502 ∨ s = 503 ∨ s = 504) := by
+  unfold Otel.Gen.C14.logHttpStatus
+  (repeat' split) <;> (try simp_all) <;> omega
+
+theorem gen_log_http_total (s : Int) :
+    Otel.Gen.C14.logHttpStatus s = "retryable" ∨ Otel.Gen.C14.logHttpStatus s = "permanent" := by
+  unfold Otel.Gen.C14.logHttpStatus
+  (repeat' split) <;> simp
 
 private theorem model_retryStatus_iff (s : Nat) : retryStatus s = true ↔ (s = 429 ∨ s = 502 ∨ s = 503 ∨ s = 504) := by
   unfold retryStatus; simp; omega
 
-/-- the HTTP status switch of otlptracehttp's upload closure retries exactly the statuses the model retries -/
-theorem gen_trace_http_status_eq_model (s : Nat) :
-    (Otel.Gen.C14.traceHttpStatus (s : Int) == "retryable") = retryStatus s := by
-  have h1 := gen_trace_http_retryable_iff s
+private theorem eq_model_of_iff (f : Int → String)
+    (hf : ∀ s : Int, f s = "retryable" ↔ (s = 429 ∨ s = 502 ∨ s = 503 ∨ s = 504)) (s : Nat) :
+    (f (s : Int) == "retryable") = retryStatus s := by
+  have h1 := hf s
   have h2 := model_retryStatus_iff s
   by_cases h : retryStatus s = true
   · have := h2.mp h
-    have : Otel.Gen.C14.traceHttpStatus (s : Int) = "retryable" := h1.mpr (by omega)
+    have : f (s : Int) = "retryable" := h1.mpr (by omega)
     simp [this, h]
   · have h' : ¬ (s = 429 ∨ s = 502 ∨ s = 503 ∨ s = 504) := fun x => h (h2.mpr x)
-    have : ¬ Otel.Gen.C14.traceHttpStatus (s : Int) = "retryable" := fun x => h' (by have := h1.mp x; omega)
+    have : ¬ f (s : Int) = "retryable" := fun x => h' (by have := h1.mp x; omega)
     simp [this, h]
+
+/-- the HTTP status switch of otlptracehttp's upload closure retries exactly the statuses the model retries -/
+theorem gen_trace_http_status_eq_model (s : Nat) :
+    (Otel.Gen.C14.traceHttpStatus (s : Int) == "retryable") = retryStatus s :=
+  eq_model_of_iff _ gen_trace_http_retryable_iff s
+
+/-- … and so does otlpmetrichttp's -/
+theorem gen_metric_http_status_eq_model (s : Nat) :
+    (Otel.Gen.C14.metricHttpStatus (s : Int) == "retryable") = retryStatus s :=
+  eq_model_of_iff _ gen_metric_http_retryable_iff s
+
+/-- … and otlploghttp's -/
+theorem gen_log_http_status_eq_model (s : Nat) :
+    (Otel.Gen.C14.logHttpStatus (s : Int) == "retryable") = retryStatus s :=
+  eq_model_of_iff _ gen_log_http_retryable_iff s
+
+/-- the generated table is the specification's list `httpRetryStatuses` -/
+theorem gen_trace_http_status_eq_spec (s : Nat) :
+    (Otel.Gen.C14.traceHttpStatus (s : Int) == "retryable") = httpRetryStatuses.contains s := by
+  rw [gen_trace_http_status_eq_model]
+  simp [retryStatus, httpRetryStatuses, Bool.or_assoc, ← beq_iff_eq]
+
+/-- the three HTTP clients implement one and the same status table -/
+theorem gen_http_tables_agree (s : Int) :
+    Otel.Gen.C14.traceHttpStatus s = Otel.Gen.C14.metricHttpStatus s ∧
+    Otel.Gen.C14.traceHttpStatus s = Otel.Gen.C14.logHttpStatus s := by
+  have t := gen_trace_http_retryable_iff s
+  have m := gen_metric_http_retryable_iff s
+  have l := gen_log_http_retryable_iff s
+  rcases gen_trace_http_total s with ht | ht <;> rcases gen_metric_http_total s with hm | hm <;>
+    rcases gen_log_http_total s with hl | hl <;> simp_all
+
+/-! ### gRPC status switch -/
+
+private def grpcTag (c : Int) : String :=
+  if c = 1 ∨ c = 4 ∨ c = 10 ∨ c = 11 ∨ c = 14 ∨ c = 15 then "retry+hint"
+  else if c = 8 then "retry-iff-hint" else "permanent"
+
+/-- characterisation of the generated gRPC table (otlptracegrpc): the codes Canceled(1), DeadlineExceeded(4),
+Aborted(10), OutOfRange(11), Unavailable(14), DataLoss(15) are always retried (with the RetryInfo delay),
+ResourceExhausted(8) iff RetryInfo is present, everything else is permanent -/
+theorem gen_trace_grpc_char (c : Int) :
+    Otel.Gen.C14.traceGrpcStatus c =
+      (if c = 1 ∨ c = 4 ∨ c = 10 ∨ c = 11 ∨ c = 14 ∨ c = 15 then "retry+hint"
+       else if c = 8 then "retry-iff-hint" else "permanent") := by
+  unfold Otel.Gen.C14.traceGrpcStatus
+  (repeat' split) <;> (try simp_all) <;> omega
+
+theorem gen_metric_grpc_char (c : Int) :
+    Otel.Gen.C14.metricGrpcStatus c =
+      (if c = 1 ∨ c = 4 ∨ c = 10 ∨ c = 11 ∨ c = 14 ∨ c = 15 then "retry+hint"
+       else if c = 8 then "retry-iff-hint" else "permanent") := by
+  unfold Otel.Gen.C14.metricGrpcStatus
+  (repeat' split) <;> (try simp_all) <;> omega
+
+theorem gen_log_grpc_char (c : Int) :
+    Otel.Gen.C14.logGrpcStatus c =
+      (if c = 1 ∨ c = 4 ∨ c = 10 ∨ c = 11 ∨ c = 14 ∨ c = 15 then "retry+hint"
+       else if c = 8 then "retry-iff-hint" else "permanent") := by
+  unfold Otel.Gen.C14.logGrpcStatus
+  (repeat' split) <;> (try simp_all) <;> omega
+
+/-- the three gRPC clients implement one and the same code table -/
+theorem gen_grpc_tables_agree (c : Int) :
+    Otel.Gen.C14.traceGrpcStatus c = Otel.Gen.C14.metricGrpcStatus c ∧
+    Otel.Gen.C14.traceGrpcStatus c = Otel.Gen.C14.logGrpcStatus c := by
+  rw [gen_trace_grpc_char, gen_metric_grpc_char, gen_log_grpc_char]; exact ⟨rfl, rfl⟩
+
+/-- interpretation of the generated tags: what `retryableGRPCStatus` returns in each arm -/
+def interpGrpc (tag : String) (details : List Detail) : Bool × Int :=
+  if tag = "retry+hint" then (true, (throttleDelay details).2)
+  else if tag = "retry-iff-hint" then throttleDelay details
+  else (false, 0)
+
+private theorem model_grpc_char (c : Nat) (ds : List Detail) :
+    retryableGRPC c ds = interpGrpc (grpcTag (c : Int)) ds := by
+  unfold retryableGRPC interpGrpc grpcTag
+  by_cases h : (c = 1 ∨ c = 4 ∨ c = 10 ∨ c = 11 ∨ c = 14 ∨ c = 15)
+  · have hi : ((c : Int) = 1 ∨ (c : Int) = 4 ∨ (c : Int) = 10 ∨ (c : Int) = 11 ∨ (c : Int) = 14 ∨ (c : Int) = 15) := by omega
+    have hm : (c == 1 || c == 4 || c == 10 || c == 11 || c == 14 || c == 15) = true := by
+      simp [Bool.or_assoc]; omega
+    rw [if_pos hm, if_pos hi]; simp
+  · have hi : ¬ ((c : Int) = 1 ∨ (c : Int) = 4 ∨ (c : Int) = 10 ∨ (c : Int) = 11 ∨ (c : Int) = 14 ∨ (c : Int) = 15) := by omega
+    have hm : ¬ (c == 1 || c == 4 || c == 10 || c == 11 || c == 14 || c == 15) = true := by
+      simp [Bool.or_assoc]; omega
+    rw [if_neg hm, if_neg hi]
+    by_cases h8 : c = 8
+    · subst h8; simp
+    · have h8i : ¬ (c : Int) = 8 := by omega
+      have h8m : ¬ (c == 8) = true := by simp [h8]
+      rw [if_neg h8m, if_neg h8i]; simp
+
+/-- `retryableGRPCStatus` of otlptracegrpc, read through the tags, is the model's `retryableGRPC` -/
+theorem gen_trace_grpc_eq_model (c : Nat) (ds : List Detail) :
+    interpGrpc (Otel.Gen.C14.traceGrpcStatus (c : Int)) ds = retryableGRPC c ds := by
+  rw [gen_trace_grpc_char, model_grpc_char]; rfl
+
+/-- … and so are otlpmetricgrpc's and otlploggrpc's -/
+theorem gen_metric_log_grpc_eq_model (c : Nat) (ds : List Detail) :
+    interpGrpc (Otel.Gen.C14.metricGrpcStatus (c : Int)) ds = retryableGRPC c ds ∧
+    interpGrpc (Otel.Gen.C14.logGrpcStatus (c : Int)) ds = retryableGRPC c ds := by
+  rw [gen_metric_grpc_char, gen_log_grpc_char, model_grpc_char]; exact ⟨rfl, rfl⟩
+
+/-- the always-retried codes of the generated table are the specification's list `grpcAlwaysRetry` -/
+theorem gen_trace_grpc_always_eq_spec (c : Nat) :
+    (Otel.Gen.C14.traceGrpcStatus (c : Int) == "retry+hint") = grpcAlwaysRetry.contains c := by
+  rw [gen_trace_grpc_char]
+  by_cases h : (c = 1 ∨ c = 4 ∨ c = 10 ∨ c = 11 ∨ c = 14 ∨ c = 15)
+  · have hi : ((c : Int) = 1 ∨ (c : Int) = 4 ∨ (c : Int) = 10 ∨ (c : Int) = 11 ∨ (c : Int) = 14 ∨ (c : Int) = 15) := by omega
+    rw [if_pos hi]
+    rcases h with h | h | h | h | h | h <;> subst h <;> decide
+  · have hi : ¬ ((c : Int) = 1 ∨ (c : Int) = 4 ∨ (c : Int) = 10 ∨ (c : Int) = 11 ∨ (c : Int) = 14 ∨ (c : Int) = 15) := by omega
+    rw [if_neg hi]
+    have : grpcAlwaysRetry.contains c = false := by
+      simp [grpcAlwaysRetry]; omega
+    rw [this]; split <;> decide
+
+/-- ResourceExhausted (8) is the only code whose retryability depends on the RetryInfo detail -/
+theorem gen_trace_grpc_iff_hint (c : Int) :
+    Otel.Gen.C14.traceGrpcStatus c = "retry-iff-hint" ↔ c = 8 := by
+  rw [gen_trace_grpc_char]
+  (repeat' split) <;> (try simp_all) <;> omega
+
+/-! ### retry.DefaultConfig (six vendored copies) -/
+
+/-- the default retry configuration of otlptracehttp as a model `Config` -/
+def genDefaultConfig : Config :=
+  { enabled := Otel.Gen.C14.traceHttp_DefaultConfig_Enabled
+    initial := Otel.Gen.C14.traceHttp_DefaultConfig_InitialInterval
+    maxInterval := Otel.Gen.C14.traceHttp_DefaultConfig_MaxInterval
+    maxElapsed := Otel.Gen.C14.traceHttp_DefaultConfig_MaxElapsedTime }
+
+/-- 5 s / 30 s / 1 min, enabled (nanoseconds) -/
+theorem gen_default_config_value :
+    genDefaultConfig = { enabled := true, initial := 5000000000, maxInterval := 30000000000, maxElapsed := 60000000000 } := by
+  decide
+
+/-- the default configuration satisfies every side condition the C14 theorems put on a configuration
+(`enabled`, `0 ≤ initial`, `0 ≤ maxInterval`, `0 < maxElapsed`, `initial ≤ maxInterval`) -/
+theorem gen_default_config_side_conditions :
+    genDefaultConfig.enabled = true ∧ 0 < genDefaultConfig.initial ∧ 0 ≤ genDefaultConfig.maxInterval ∧
+    0 < genDefaultConfig.maxElapsed ∧ genDefaultConfig.initial ≤ genDefaultConfig.maxInterval ∧
+    genDefaultConfig.maxInterval ≤ genDefaultConfig.maxElapsed := by
+  decide
+
+/-- no field of the literal is left untranslated (a new field of `DefaultConfig` shows up here) -/
+theorem gen_default_config_complete : Otel.Gen.C14.traceHttp_DefaultConfig_otherFields = [] := by decide
+
+/-- the six vendored copies of `retry.DefaultConfig` are the same configuration -/
+theorem gen_default_configs_agree :
+    let t := (Otel.Gen.C14.traceHttp_DefaultConfig_Enabled, Otel.Gen.C14.traceHttp_DefaultConfig_InitialInterval,
+              Otel.Gen.C14.traceHttp_DefaultConfig_MaxInterval, Otel.Gen.C14.traceHttp_DefaultConfig_MaxElapsedTime,
+              Otel.Gen.C14.traceHttp_DefaultConfig_otherFields)
+    t = (Otel.Gen.C14.traceGrpc_DefaultConfig_Enabled, Otel.Gen.C14.traceGrpc_DefaultConfig_InitialInterval,
+         Otel.Gen.C14.traceGrpc_DefaultConfig_MaxInterval, Otel.Gen.C14.traceGrpc_DefaultConfig_MaxElapsedTime,
+         Otel.Gen.C14.traceGrpc_DefaultConfig_otherFields) ∧
+    t = (Otel.Gen.C14.metricHttp_DefaultConfig_Enabled, Otel.Gen.C14.metricHttp_DefaultConfig_InitialInterval,
+         Otel.Gen.C14.metricHttp_DefaultConfig_MaxInterval, Otel.Gen.C14.metricHttp_DefaultConfig_MaxElapsedTime,
+         Otel.Gen.C14.metricHttp_DefaultConfig_otherFields) ∧
+    t = (Otel.Gen.C14.metricGrpc_DefaultConfig_Enabled, Otel.Gen.C14.metricGrpc_DefaultConfig_InitialInterval,
+         Otel.Gen.C14.metricGrpc_DefaultConfig_MaxInterval, Otel.Gen.C14.metricGrpc_DefaultConfig_MaxElapsedTime,
+         Otel.Gen.C14.metricGrpc_DefaultConfig_otherFields) ∧
+    t = (Otel.Gen.C14.logHttp_DefaultConfig_Enabled, Otel.Gen.C14.logHttp_DefaultConfig_InitialInterval,
+         Otel.Gen.C14.logHttp_DefaultConfig_MaxInterval, Otel.Gen.C14.logHttp_DefaultConfig_MaxElapsedTime,
+         Otel.Gen.C14.logHttp_DefaultConfig_otherFields) ∧
+    t = (Otel.Gen.C14.logGrpc_DefaultConfig_Enabled, Otel.Gen.C14.logGrpc_DefaultConfig_InitialInterval,
+         Otel.Gen.C14.logGrpc_DefaultConfig_MaxInterval, Otel.Gen.C14.logGrpc_DefaultConfig_MaxElapsedTime,
+         Otel.Gen.C14.logGrpc_DefaultConfig_otherFields) := by
+  exact ⟨rfl, rfl, rfl, rfl, rfl⟩
 
 end Otel.C14.GenTie
